@@ -5,21 +5,39 @@ spec/RestartGen.tla (tlc -simulate; the schedules the whole-core simulation can 
 counterexamples; each is replayed on the REAL core with harness/cmd/coresim (+ coresim/ext_c18.go):
 crash = SIGKILL of a child-process core held at a master-side gate, restart against the same simulated
 Consul and Mesos master; reconnection = the master closes the event stream of an in-process core (hook
-records available). The recorded runs are validated by TLC against spec/RestartTrace.tla (strict
+records available); lost KILL call = a held KILL answered 202-and-forgotten / 503; overlapping requests = a
+teardown held at its KILL calls (or parked at the roster write-back) while another environment is created. The recorded runs are validated by TLC against spec/RestartTrace.tla (strict
 conformance with the model + monitor of the property formulas over the recorded facts).
 """
 import json
+import os
 
 import coresim as cs
 import vlib
 
 DEVS = {"Code_ReconcileKillIgnoresRoster": "reconcile-kills-owned-tasks",
-        "Code_ReconcileUnawareOfLaunching": "reconcile-kills-task-being-deployed"}
+        "Code_ReconcileUnawareOfLaunching": "reconcile-kills-task-being-deployed",
+        "Code_RosterRewriteNotAtomic": "roster-rewrite-loses-concurrent-append"}
 DEV_PROP = {"Code_ReconcileKillIgnoresRoster": "NoFriendlyFireRostered",
-            "Code_ReconcileUnawareOfLaunching": "NoFriendlyFireLaunching"}
-TRANSIENT = {"deploying", "launched", "locked", "deployed", "configuring", "starting", "releasing", "killing"}
+            "Code_ReconcileUnawareOfLaunching": "NoFriendlyFireLaunching",
+            "Code_RosterRewriteNotAtomic": "NoFriendlyFireForgotten"}
+TRANSIENT = {"deploying", "launched", "locked", "deployed", "configuring", "starting", "releasing", "rewriting", "killing"}
+ROSTER_HOOK = "task.roster.update"   # verifhook point at the entry of roster.updateTasks (work/patches/C18-hooks.patch)
+
+
+def has_roster_hook():
+    try:
+        with open(os.path.join(vlib.REPO, "core", "task", "roster.go")) as fh:
+            return ROSTER_HOOK in fh.read()
+    except OSError:
+        return False
+
 LAUNCHPH = {"launched", "locked", "deployed"}
 SAFETY = "SameIdentity IdentityStable"
+# RestartGen "invariants" whose shortest counterexamples are scenario shapes: leftovers + a KILL accepted and lost + the
+# round that is due; the same with a KILL refused while other leftovers keep the core talking; a deployment completed while
+# a teardown was held at its KILL calls, then a reconnection
+PROBES = ["ProbeLostKill", "ProbeRefusedKill", "ProbeOverlap"]
 WORKERS = max(4, vlib.NCPU // 2)
 
 
@@ -27,9 +45,9 @@ def devs(ctx):
     return {c: bool(ctx.deviation_open(k)) for c, k in DEVS.items()}
 
 
-def consts(tasks, envs, crash, drop, dv):
+def consts(tasks, envs, crash, drop, dv, lost=1):
     lines = ["  Tasks = {%s}" % ", ".join('"%s"' % t for t in tasks), "  Envs = {%s}" % ", ".join('"%s"' % e for e in envs),
-             "  MaxCrash = %d" % crash, "  MaxDrop = %d" % drop]
+             "  MaxCrash = %d" % crash, "  MaxDrop = %d" % drop, "  MaxLost = %d" % lost]
     for c in DEVS:
         lines.append("  %s = %s" % (c, "TRUE" if dv[c] else "FALSE"))
     return "\n".join(lines)
@@ -45,7 +63,7 @@ def cfg_gen(cs_, starts="{6, 9, 12, 14, 16, 18, 20, 23, 26, 30, 34}", gaps="{3, 
 
 def cfg_trace(dv):
     return "SPECIFICATION TraceSpec\nCONSTANTS\n%s\nINVARIANT PrintEnd\nCHECK_DEADLOCK FALSE\n" % consts(
-        ["k%d" % i for i in range(1, 9)], ["e1", "e2"], 9, 9, dv)
+        ["k%d" % i for i in range(1, 9)], ["e1", "e2"], 9, 9, dv, 9)
 
 
 # ------------------------------------------------------------------------------------------------
@@ -80,8 +98,12 @@ class Undrivable(Exception):
 class Conv:
     """Turns (a prefix of) a model behaviour into driver steps."""
 
+    roster_hook = False   # the tree under test has the hook point ROSTER_HOOK
+
     def __init__(self, sid, acts, dv, seed, origin):
         self.sid, self.acts, self.dv, self.seed, self.origin = sid, acts, dv, seed, origin
+        self.owed = False       # a KILL call has been lost: the disconnection that is due has not come yet ("driver" | "client")
+        self.client_drop = False
         self.steps, self.files = [], {}
         self.child = any(a["act"] == "Crash" for a in acts)
         self.op = None          # outstanding asynchronous request
@@ -134,6 +156,8 @@ class Conv:
                 return "done", j
             if a["act"] in ("Crash", "DropConnection"):
                 return "fault", j
+            if a["act"] == "NewEnv" and a["arg"] != e:
+                return "overlap", j   # another environment is requested while this request is held
         return "end", None
 
     def will_err(self, i, e):
@@ -165,26 +189,35 @@ class Conv:
         self.files["workflows/%s.yaml" % wf] = cs.workflow(wf, roles)
         return wf
 
-    def arm(self, point, n=1):
+    def arm(self, point, n=1, kind=""):
         if point in self.held:
             raise Undrivable("gate %s already in use" % point)
+        if point.startswith("HOOK:"):
+            if self.child or not (self.roster_hook or point != "HOOK:" + ROSTER_HOOK):
+                raise Undrivable("no hook point %s here" % point)
+            self.emit(do="gate", point=point[5:])
+        else:
+            self.emit(do="c18_arm", point=point, n=n, kind=kind)
         self.held[point] = True
-        self.emit(do="c18_arm", point=point, n=n)
 
     def release(self, point, kind="pass"):
         if self.held.pop(point, None):
-            self.emit(do="c18_release", point=point, kind=kind)
+            if point.startswith("HOOK:"):
+                self.emit(do="release", point=point[5:])   # the one parked there (later arrivals were let through)
+                self.emit(do="settle", ms=60)
+            else:
+                self.emit(do="c18_release", point=point, kind=kind)
 
     def fault_need(self, i, e, done_act, gbp):
         """The next fault that interrupts the request of env e after step i: (index, gates, hook) or None."""
         what, j = self.lookahead(i, e, done_act)
-        if what != "fault":
+        if what not in ("fault", "overlap"):
             return None
         ph = self.acts[j - 1]["st"]["env"][e]
         gates = gbp.get(ph)
         if gates is None:
             raise Undrivable("no hold point in phase %s" % ph)
-        hook = ph == "locked" and self.acts[j]["act"] == "DropConnection" and not self.child
+        hook = what == "fault" and ph == "locked" and self.acts[j]["act"] == "DropConnection" and not self.child
         return j, list(gates), hook
 
     def start_async(self, i, e, st, kind, done_act, gates_by_phase, **call):
@@ -217,6 +250,10 @@ class Conv:
         if self.hookgate:
             self.emit(do="waitgate", point="task.lock", timeout_ms=25000)
         for g in gates:
+            if g.startswith("HOOK:"):
+                self.emit(do="waitgate", point=g[5:], timeout_ms=25000)
+                self.emit(do="c18_ungate_keep", point=g[5:])   # whoever comes by later (another request's cleanup) passes
+                continue
             n = op["ntasks"] if (g == "LAUNCH" or g.startswith("MESSAGE:")) else 1
             self.emit(do="c18_waitgate", point=g, n=n, timeout_ms=25000)
         if "LAUNCH" in gates and not self.hookgate:
@@ -250,16 +287,33 @@ class Conv:
         # crash while the KILL calls of a reconciliation are being sent: the gate must be armed before that reconciliation starts
         arm_kill_at = {}
         for j, a in enumerate(acts):
-            if a["act"] == "Crash" and tset(acts[j - 1]["st"]["rcv"]):
+            pj = acts[j - 1]["st"]
+            if a["act"] == "Crash" and (tset(pj["rcv"]) or tset(pj["kq"])):
                 r = max(k for k in range(j) if acts[k]["act"] == "Reconcile")
-                kills = sum(1 for k in range(r, j) if acts[k]["act"] == "KillOnReconcile")
-                if not any(kill_cond(acts[j - 1]["st"], t, self.dv) for t in tset(acts[j - 1]["st"]["rcv"])):
+                arrived = sum(1 for k in range(r, j) if acts[k]["act"] == "KillArrives")
+                if not tset(pj["kq"]) and not any(kill_cond(pj, t, self.dv) for t in tset(pj["rcv"])):
                     raise Undrivable("crash during a reconciliation with nothing left to kill")
                 p = [k for k in range(r) if acts[k]["act"] in ("Crash", "DropConnection")]
-                if not p:
-                    raise Undrivable("crash during the first reconciliation")
-                arm_kill_at[p[-1]] = (kills + 1, j)
-        midrec = {v[1] for v in arm_kill_at.values()}
+                if not p or any(acts[k]["act"] in ("KillLost", "KillRefused") for k in range(r, j)):
+                    raise Undrivable("crash during the first reconciliation / after a refused KILL")
+                arm_kill_at[p[-1]] = (arrived + 1, j, "")
+        # a KILL call of a reconciliation refused by the master: the n-th KILL of that round is held, then dropped
+        lost_at = {}
+        for j, a in enumerate(acts):
+            if a["act"] in ("KillLost", "KillRefused"):
+                r = max(k for k in range(j) if acts[k]["act"] == "Reconcile")
+                sends = [acts[k]["arg"] for k in range(r, j) if acts[k]["act"] == "KillOnReconcile"]
+                p = [k for k in range(r) if acts[k]["act"] in ("Crash", "DropConnection")]
+                if (not p or p[-1] in arm_kill_at or a["arg"] not in sends
+                        or any(acts[k]["act"] in ("KillLost", "KillRefused") for k in range(r, j))):
+                    raise Undrivable("cannot hold this KILL call")
+                nth = sends.index(a["arg"]) + 1
+                arm_kill_at[p[-1]] = (nth, None, "chain" if a["act"] == "KillRefused" else "")
+                # KILL calls of that round which follow this one
+                nxt = [k for k in range(j + 1, len(acts)) if acts[k]["act"] in ("Reconcile", "Crash")]
+                total = sum(1 for k in range(r, nxt[0] if nxt else len(acts)) if acts[k]["act"] == "KillOnReconcile")
+                lost_at[j] = (nth, total - nth)
+        midrec = {v[1] for v in arm_kill_at.values() if v[1] is not None}
         # stream dropped while the answer to a RECONCILE call is on its way: the call must be held at the master
         arm_rec_at, lostans = {}, set()
         for j, a in enumerate(acts):
@@ -283,7 +337,16 @@ class Conv:
             if self.doomed:
                 break
             self.cur_st = st
-            if act == "NewEnv":
+            if act == "NewEnv" and self.op:
+                # requested while a teardown is held at the master / parked at the roster: that one first, then this one, whole
+                self.flush(prev)
+                self.fresh_life = False
+                self.wait_op_held(i)
+                n = self.ntasks_for(i, e)
+                if self.lookahead(i, e, "ConfigureDone")[0] != "done":
+                    raise Undrivable("the overlapping request does not complete")
+                self.emit(do="create", env=e, wf=self.new_wf(n))
+            elif act == "NewEnv":
                 self.flush(prev)
                 self.fresh_life = False
                 n = self.ntasks_for(i, e)
@@ -297,7 +360,8 @@ class Conv:
                                  op="START_ACTIVITY")
             elif act == "Release":
                 self.flush(prev)
-                self.start_async(i, e, st, "destroy", "KillSend", {"killing": ["KILL"]}, do="destroy", env=e)
+                self.start_async(i, e, st, "destroy", "KillSend", {"killing": ["KILL"], "rewriting": ["HOOK:" + ROSTER_HOOK]},
+                                 do="destroy", env=e)
             elif act in ("Crash", "DropConnection"):
                 trans = [(x, prev["env"][x]) for x in sorted(prev["env"]) if prev["env"][x] in TRANSIENT]
                 mid = i in midrec
@@ -310,6 +374,19 @@ class Conv:
                 else:
                     self.flush(prev)
                     opgates = self.wait_op_held(i) if self.op else []
+                    if self.owed:
+                        self.emit(do="settle", ms=150)   # the rest of the round the lost KILL belongs to
+                by_client = self.owed == "client" and act == "DropConnection"
+                self.owed = False
+                if by_client:
+                    # nothing to drop: the core's HTTP client has given the subscription up itself (it comes back after its
+                    # registration back-off, 1 s or more)
+                    if i in arm_kill_at:
+                        self.arm("KILL", arm_kill_at[i][0], arm_kill_at[i][2])
+                    if i in arm_rec_at:
+                        self.arm("RECONCILE")
+                    self.client_drop = True
+                    continue
                 self.emit(do="snapshot")
                 self.emit(do="c18_mark")
                 if act == "Crash":
@@ -326,14 +403,14 @@ class Conv:
                         self.op["doomed"] = False
                         self.await_op()
                     if i in arm_kill_at:
-                        self.arm("KILL", arm_kill_at[i][0])
+                        self.arm("KILL", arm_kill_at[i][0], arm_kill_at[i][2])
                     if i in arm_rec_at:
                         self.arm("RECONCILE")
                 else:
                     if (i in arm_kill_at or i in arm_rec_at) and self.op:
                         raise Undrivable("a request is still outstanding")
                     if i in arm_kill_at:
-                        self.arm("KILL", arm_kill_at[i][0])
+                        self.arm("KILL", arm_kill_at[i][0], arm_kill_at[i][2])
                     if i in arm_rec_at:
                         if i in lostans:
                             raise Undrivable("two RECONCILE answers lost in a row")
@@ -345,7 +422,8 @@ class Conv:
                 self.emit(do="startcore")
                 self.down = False
             elif act == "Reconcile":
-                self.emit(do="c18_waitreconcile", timeout_ms=20000)
+                self.emit(do="c18_waitreconcile", timeout_ms=8000 if self.client_drop else 20000)
+                self.client_drop = False
                 self.quiesce = "restart" if self.after_crash else "reconnect"
                 self.after_crash = False
             elif act == "TaskRunning":
@@ -353,6 +431,34 @@ class Conv:
                     if not self.down:
                         self.flush(prev)
                     self.op_release(i, "LAUNCH")
+            elif act in ("KillLost", "KillRefused"):
+                if i not in lost_at:
+                    raise Undrivable("a lost KILL nobody armed")
+                self.quiesce = None          # observation comes after the reconciliation round that is now due
+                self.emit(do="c18_waitgate", point="KILL", timeout_ms=25000)
+                if act == "KillLost":
+                    self.release("KILL", "swallow")      # 202 and forgotten: the disconnection that is due is the driver's
+                    self.owed = "driver"
+                else:
+                    # refused (503) once the core has sent what it sends meanwhile: its HTTP client then gives the subscription
+                    # up by itself and subscribes again
+                    nth, more = lost_at[i]
+                    self.emit(do="c18_mark")
+                    self.emit(do="c18_poke")                       # a status update the core acknowledges: a call of its own
+                    self.emit(do="c18_waitacks", n=1, timeout_ms=10000)   # ... issued while the KILL call is out
+                    if more > 0:
+                        # the next KILL of the round is out while the client gives the subscription up
+                        self.emit(do="c18_release", point="KILL", kind="drop", op="more")
+                        self.emit(do="c18_waitgate", point="KILL", n=nth + 1, op="seen", timeout_ms=25000)
+                        self.emit(do="settle", ms=100)
+                        self.release("KILL", "pass")
+                    else:
+                        self.release("KILL", "drop")
+                    self.owed = "client"
+            elif act == "RosterWrite":
+                if self.op and self.op["env"] == e and ("HOOK:" + ROSTER_HOOK) in self.held:
+                    self.flush(prev)
+                    self.op_release(i, "HOOK:" + ROSTER_HOOK)
             elif act == "RosterAppend":
                 if self.hookgate:
                     self.flush(prev)
@@ -370,6 +476,8 @@ class Conv:
                     self.doomed = True   # the request hangs on the core's own timeouts: observe and stop
             # Subscribe*, StoreFid, ReconcileUpdate, Kill/RefreshOnReconcile, Launch, Lock, ConfigureSend, RosterRemove: the core's own steps
         last = self.cur_st or acts[-1]["st"]
+        if self.owed:
+            raise Undrivable("the behaviour ends before the disconnection that is due")
         if self.down:
             self.emit(do="startcore")
             self.emit(do="c18_waitreconcile", timeout_ms=20000)
@@ -407,13 +515,16 @@ def point_key(p):
 
 
 CRASH_RANK = ["deploying", "launch", "configuring", "-:configured", "starting", "-:running", "killing", "-:midreconcile", "-:done"]
-DROP_RANK = ["-:configured", "-:running", "configuring", "starting", "-:midreconcile", "locked", "deployed", "killing"]
+DROP_RANK = ["-:configured", "-:running", "overlap", "configuring", "starting", "-:midreconcile", "locked", "deployed", "killing"]
 
 
 def rank(key):
     """Order in which single-fault points are taken: the points named in the design first."""
     fault, cls, tasks, mid, stable = key
     name = cls
+    if "+overlap" in tasks and fault == "drop":
+        # a deployment completed while a teardown was held at its KILL calls / roster write-back, then a reconnection
+        return (0, DROP_RANK.index("overlap"), stable)
     if cls == "-":
         name = "-:midreconcile" if mid else "-:" + ("running" if "running" in stable else "configured" if "configured" in stable
                                                      else "done" if "done" in stable else "other")
@@ -423,8 +534,11 @@ def rank(key):
 
 
 def fault_points(acts):
-    pts, prev = [], None
+    pts, prev, overlap = [], None, False
     for i, a in enumerate(acts):
+        if a["act"] == "RosterAppend" and prev is not None and any(
+                ph in ("rewriting", "killing") for x, ph in prev["env"].items() if x != a["arg"]):
+            overlap = True   # the roster written by a deployment while a teardown is re-writing it / sending its KILL calls
         if a["act"] in ("Crash", "DropConnection") and prev is not None:
             seen_as = ""
             if a["act"] == "Crash":
@@ -441,8 +555,15 @@ def fault_points(acts):
             cls = "launch" if (crash and ph in LAUNCHPH) else ph
             stg = sorted({prev["mt"][t]["st"] for x in tr for t in tset(prev["etasks"][x])})
             alive = sum(1 for t in prev["mt"] if prev["mt"][t]["st"] in ("staging", "running"))
-            pts.append({"fault": "crash" if crash else "drop", "class": cls, "transient": ph, "tasks": "/".join(stg) or "-",
-                        "midreconcile": bool(tset(prev["rcv"]) or tset(prev["rq"])), "alive": alive, "life": prev["life"],
+            lostflag = ""
+            if not crash and prev.get("owed"):
+                kind = [b["act"] for b in acts[:i] if b["act"] in ("KillLost", "KillRefused")]
+                lostflag = "!refusedkill" if kind and kind[-1] == "KillRefused" else "!lostkill"
+            flags = lostflag + ("+overlap" if overlap else "")
+            overlap = False
+            pts.append({"fault": "crash" if crash else "drop", "class": cls, "transient": ph, "tasks": ("/".join(stg) or "-") + flags,
+                        "midreconcile": bool(tset(prev["rcv"]) or tset(prev["rq"]) or tset(prev.get("kq"))), "alive": alive,
+                        "life": prev["life"],
                         "seen_as": seen_as if "staging" in stg else "",
                         "stable": sorted(v for v in prev["env"].values() if v not in TRANSIENT and v != "none")})
         prev = a["st"]
@@ -461,7 +582,8 @@ def prefixes(acts):
             if a["act"] == "Reconcile":
                 seen_rec = True
             st = a["st"]
-            quiet = st["up"] and st["conn"] == "up" and not tset(st["rq"]) and not tset(st["rcv"])
+            quiet = (st["up"] and st["conn"] == "up" and not tset(st["rq"]) and not tset(st["rcv"]) and not tset(st.get("kq"))
+                     and not st.get("owed"))
             if a["act"] in ("Crash", "DropConnection"):
                 end = j
                 break
@@ -507,7 +629,7 @@ def run_isolated(ctx, scenarios, procs=8, timeout=240, tries=3):
                 p.wait()
                 last = "timeout after %ds" % timeout
                 continue
-            tail = out.strip().splitlines()[-1] if out.strip() else ""
+            tail = next((x for x in reversed(out.strip().splitlines()) if x.startswith("scenarios=")), "")
             if p.returncode == 0 and tail.startswith("scenarios=1") and os.path.exists(trc):
                 return ctx.read_ndjson(trc), attempt
             last = "rc=%s: %s" % (p.returncode, vlib.tail(out, 6))
@@ -534,7 +656,7 @@ def fidnum(s):
 
 
 def project(lines):
-    out, ended, started = [], set(), set()
+    out, ended, started, poked = [], set(), set(), set()
     # a child core's environment gets its alias only when the create request returns: until then the recorder shows the
     # real id. The environment an ACCEPT launches for is the one being created (the last create request).
     raw, creating = {}, {}
@@ -571,8 +693,12 @@ def project(lines):
             if ln["tasks"]:
                 out.append({"ev": ev, "scn": scn, "tasks": [t["task"] for t in ln["tasks"]]})
         elif ev == "Hook":
-            if g("point") in ("task.lock", "task.unlock", "task.roster.appended"):
+            if g("point") in ("task.lock", "task.unlock", "task.roster.appended", ROSTER_HOOK):
                 out.append({"ev": ev, "scn": scn, "point": g("point"), "task": g("task"), "env": g("env")})
+        elif ev == "Poke":
+            poked.add((scn, g("task")))
+        elif ev == "MUpdate" and (scn, g("task")) in poked and not g("reason"):
+            poked.discard((scn, g("task")))   # the repetition of a status the core already has (c18_poke)
         elif ev == "MUpdate":
             out.append({"ev": ev, "scn": scn, "task": g("task"), "state": g("state"), "reason": g("reason")})
         elif ev == "MMessage":
@@ -584,7 +710,11 @@ def project(lines):
         elif ev in ("MReconcile", "MStreamDropped", "CoreKilled"):
             out.append({"ev": ev, "scn": scn})
         elif ev == "MGateReached":
+            out.append({"ev": ev, "scn": scn, "point": g("point"), "task": g("task")})
+        elif ev == "GateReleased":
             out.append({"ev": ev, "scn": scn, "point": g("point")})
+        elif ev == "MGateReleased":
+            out.append({"ev": ev, "scn": scn, "point": g("point"), "kind": g("kind")})
         elif ev == "Snapshot":
             out.append({"ev": ev, "scn": scn, "envs": [{"env": alias(e["env"]), "st": e["st"]} for e in ln["envs"]],
                         "roster": [{"task": t["task"], "locked": bool(t["locked"]), "owner": alias(t.get("owner", ""))} for t in ln["tasks"]],
@@ -612,32 +742,42 @@ def run(ctx):
         "launched tasks, are covered by the model only (no hold point there)",
         "every scenario runs in a coresim process of its own (fresh registration back-off); the simulated master refuses a command "
         "whose target tasks it has already killed (harness/coresim/ext_c18.go)",
+        "lost KILL calls: only those of a reconciliation (a teardown whose KILL call fails puts the task back on the roster); "
+        "'accepted and lost' = the simulated master answers 202 and forgets the call, 'refused' = it answers 503 while another "
+        "call of the core is out; NoOrphans is claimed under the assumption that a scheduler whose calls get lost is eventually "
+        "disconnected (the core does not reconcile periodically)",
+        "the window between the read and the write-back of the roster in doKillTasks is replayed only on a tree that has the "
+        "hook point task.roster.update (work/patches/C18-hooks.patch)",
     ]
     ctx.rule = ("scenario = prefix of a behaviour of RestartGen (tlc -simulate, seeded) ending where recovery from its k-th fault has "
-                "settled, or a TLC counterexample; selected greedily for new fault points (fault, phase of the interrupted request, "
-                "task states, mid-reconciliation, something alive); non-trivial = something is alive at the master when the fault hits")
+                "settled, or a TLC counterexample (open deviations), or the shortest RestartGen behaviour reaching a required shape "
+                "(lost KILL, refused KILL, deployment overlapping a held teardown then reconnection); selected greedily for new fault "
+                "points (fault, phase of the interrupted request, task states, mid-reconciliation, lost/refused KILL, overlap, "
+                "environments around); non-trivial = something is alive at the master when the fault hits")
     # 1. the repaired design satisfies everything (safety + liveness), exhaustively
-    small = consts(["k1", "k2"], ["e1"], 2, 2, fixed)
+    small = consts(["k1", "k2"], ["e1"], 2, 1 if quick else 2, fixed)   # (a disconnection due to a refused KILL comes on top)
     allp = SAFETY + " NoFriendlyFire NoOrphans"
-    ctx.model_check("Restart", "repaired-1env", cfg_text=cfg_model(small, allp, "TypeOK TasksUnderIdentity RosterOfThisLife EnvsStay"),
+    INVS = "TypeOK TasksUnderIdentity RosterOfThisLife RosterKeepsOwned EnvsStay"
+    ctx.model_check("Restart", "repaired-1env", cfg_text=cfg_model(small, allp, INVS),
                     workers=WORKERS, timeout=900)
     if ctx.model_runs[-1]["result"] != "ok":
         raise vlib.Inconclusive("the repaired design violates its own properties: " + ctx.model_runs[-1]["result"])
     two = consts(["k1", "k2"], ["e1", "e2"], 1 if quick else 2, 1 if quick else 2, fixed)
-    ctx.model_check("Restart", "repaired-2env", cfg_text=cfg_model(two, allp, "TypeOK TasksUnderIdentity RosterOfThisLife EnvsStay"),
+    ctx.model_check("Restart", "repaired-2env", cfg_text=cfg_model(two, allp, INVS),
                     workers=WORKERS, timeout=900)
     if ctx.model_runs[-1]["result"] != "ok":
         raise vlib.Inconclusive("the repaired design violates its own properties: " + ctx.model_runs[-1]["result"])
     if not quick:
-        three = consts(["k1", "k2", "k3"], ["e1", "e2"], 1, 1, fixed)   # (2 crashes, 1 drop: 1.4e6 states, 3-9 min)
-        ctx.model_check("Restart", "repaired-3tasks", cfg_text=cfg_model(three, allp, "TypeOK TasksUnderIdentity RosterOfThisLife EnvsStay"),
-                        workers=WORKERS, timeout=1500)
-        if ctx.model_runs[-1]["result"] != "ok":
-            raise vlib.Inconclusive("the repaired design violates its own properties: " + ctx.model_runs[-1]["result"])
+        # three tasks: one restart with a lost KILL (the disconnection that is due comes on top), and one reconnection
+        for name, c, d, l in (("repaired-3tasks-restart", 1, 0, 1), ("repaired-3tasks-reconnect", 0, 1, 0)):
+            three = consts(["k1", "k2", "k3"], ["e1", "e2"], c, d, fixed, l)
+            ctx.model_check("Restart", name, cfg_text=cfg_model(three, allp, INVS), workers=WORKERS, timeout=1500)
+            if ctx.model_runs[-1]["result"] != "ok":
+                raise vlib.Inconclusive("the repaired design violates its own properties: " + ctx.model_runs[-1]["result"])
     # 2. the tree as described by the open deviations: the other properties hold, the deviation shows
     cex = []
     if any(dv.values()):
-        asis = consts(["k1", "k2"], ["e1"], 2, 2, dv)
+        asis = consts(["k1", "k2"], ["e1"], 2, 1 if quick else 2, dv)
         ctx.model_check("Restart", "as-found", cfg_text=cfg_model(asis, SAFETY + " NoOrphans"), workers=WORKERS, timeout=900)
         if ctx.model_runs[-1]["result"] != "ok":
             raise vlib.Inconclusive("the model of the tree as found breaks a property it should keep: " + ctx.model_runs[-1]["result"])
@@ -646,18 +786,22 @@ def run(ctx):
                 continue
             # searched among the schedules the simulation can impose (RestartGen), so that it can be replayed
             r = ctx.model_check("RestartGen", "as-found:" + prop, workers=1, timeout=600,  # one worker: the same shortest counterexample every time
-                                cfg_text=cfg_gen(consts(["k1", "k2"], ["e1"], 0, 1, dv), "{0}", "{1}",
-                                                 "PROPERTIES %s\nCONSTRAINT TickBound\n" % prop))
+                                cfg_text=cfg_gen(consts(["k1", "k2"], ["e1", "e2"] if prop == "NoFriendlyFireForgotten" else ["e1"],
+                                                        0, 1, dv, 0), "{0}", "{1}", "PROPERTIES %s\nCONSTRAINT TickBound\n" % prop))
             if prop not in r.violated:
                 raise vlib.Inconclusive("deviation %s is open but the model does not break %s" % (DEVS[c], prop))
             cex.append((prop, norm(r.counterexample())))
     # 3. scenarios from the model
     nsim, depth = (500, 70) if quick else (2500, 80)
-    want = 19 if quick else 60
+    want = 21 if quick else 64
     gen = consts(["k1", "k2", "k3"], ["e1", "e2"], 2, 2, dv)
     behs = ctx.simulate("RestartGen", None, nsim, depth, cfg_text=cfg_gen(gen), seed=ctx.seed * 104729 + 17)
     scenarios, by_id = [], {}
     sid = 0
+    Conv.roster_hook = has_roster_hook()
+    if dv["Code_RosterRewriteNotAtomic"] and not Conv.roster_hook:
+        raise vlib.Inconclusive("finding %s is open but the tree has no hook point %s to park the roster write-back at "
+                                "(work/patches/C18-hooks.patch)" % (DEVS["Code_RosterRewriteNotAtomic"], ROSTER_HOOK))
 
     def try_conv(acts, origin):
         nonlocal sid
@@ -673,6 +817,17 @@ def run(ctx):
         if s is None:
             raise vlib.Inconclusive("cannot drive the counterexample of %s" % prop)
         scenarios.append(s)
+    # scenario shapes every run must contain, whatever the simulation draws: shortest behaviours of RestartGen reaching them
+    for probe in PROBES:
+        r = ctx.model_check("RestartGen", "shape:" + probe, workers=1, timeout=600,
+                            cfg_text=cfg_gen(consts(["k1", "k2"], ["e1", "e2"], 1, 1, dv, 1), "{0}", "{1}",
+                                             "INVARIANT %s\nCONSTRAINT TickBound\n" % probe))
+        if probe not in r.violated:
+            raise vlib.Inconclusive("the generator does not reach the scenario shape %s" % probe)
+        s = try_conv(norm(r.counterexample()), "shape:" + probe)
+        if s is None:
+            raise vlib.Inconclusive("cannot drive the scenario shape %s" % probe)
+        scenarios.append(s)
     cands, undr = [], 0
     for b in behs:
         cands += prefixes(norm(b))
@@ -686,8 +841,8 @@ def run(ctx):
                 single[keys[0]].append(acts)   # the shortest few: the first one the driver can impose is taken
         elif len(keys) > 1:
             multi.setdefault(keys, acts)
-    total = want + len(cex)
-    nseq = 3 if quick else want // 3
+    total = want + len(scenarios)
+    nseq = 4 if quick else want // 3
     # one fault per scenario: every distinct fault point, the ones named in the design first; then fault sequences
     for key in sorted(single, key=rank):
         if len(scenarios) >= total - min(nseq, len(multi)):
@@ -703,9 +858,10 @@ def run(ctx):
     while rest and len(scenarios) < total:
         def prio(ks):
             new = [k for k in ks if k not in covered]
+            lostk = any(("!lostkill" in k[2] or "!refusedkill" in k[2]) and k not in covered for k in ks)   # a KILL call lost
             lost = any(k[0] == "drop" and k[3] and k not in covered for k in ks)      # answer to RECONCILE lost
             midk = any(k[0] == "crash" and k[3] and k not in covered for k in ks)     # killed while reconciling
-            return (0 if lost else 1 if midk else 2, len(ks), -len(new), ks)
+            return (0 if lostk else 1 if lost else 2 if midk else 3, len(ks), -len(new), ks)
         keys = min(rest, key=prio)
         acts = rest.pop(keys)
         s = try_conv(acts, "simulation")
@@ -726,7 +882,7 @@ def run(ctx):
     ctx.extra["fault_points"] = sorted({json.dumps(point_key(p)) for s in scenarios for p in s["model"]["points"]})
     # 4. replay on the real core
     def unmet(ls):
-        return [ln for ln in ls if ln["ev"] in ("MGateWait", "Reconciled", "CoreStarted", "GateReached") and not ln.get("ok", True)]
+        return [ln for ln in ls if ln["ev"] in ("MGateWait", "Reconciled", "CoreStarted", "GateReached", "Acked") and not ln.get("ok", True)]
 
     lines = run_isolated(ctx, scenarios)
     bad = unmet(lines)
@@ -757,9 +913,16 @@ def run(ctx):
         m = by_id.get(scn, {}).get("model", {})
         sig = {"inv": inv}
         if inv == "NoFriendlyFire":
-            sig.update({"trigger": detail[0], "inroster": bool(detail[1])})
+            # inroster: the task has been in the roster (hook task.roster.appended / a GetTasks listing); listed: it still was
+            # in the last listing
+            # held_at: the scenario parks the core at that hook point (a window no call to the master opens)
+            parked = [st.get("point") for st in by_id.get(scn, {}).get("steps", []) if st.get("do") == "gate"]
+            sig.update({"trigger": detail[0], "inroster": bool(detail[1]), "listed": bool(detail[3]),
+                        "held_at": ROSTER_HOOK if ROSTER_HOOK in parked else "-"})
         elif inv == "NoOrphans":
-            sig.update({"trigger": detail[0], "point": json.dumps([(p["fault"], p["transient"]) for p in m.get("points", [])])})
+            # resubscribed: the core has subscribed again since the last fault / refused call
+            sig.update({"trigger": detail[0], "resubscribed": bool(detail[2]),
+                        "point": json.dumps([(p["fault"], p["transient"]) for p in m.get("points", [])])})
         elif inv == "EnvStays":
             if scn in ff:
                 continue  # the consequence of the friendly fire already reported for this run
